@@ -205,7 +205,7 @@ def compress_cli(work, src, cfg_args, hash_len=64, compression="none", level=Non
 
 
 def clone_cli(work, archive_path, out_path, seeds=(), seed_output=False, verify_output=False, force=False,
-              pin=None, stdin_seed=None, blockdev=False, extra=None, strace_log=None, preload=None, env=None, timeout=120):
+              pin=None, stdin_seed=None, blockdev=False, extra=None, strace_log=None, preload=None, env=None, timeout=300):
     args = ["clone"]
     if seed_output:
         args.append("--seed-output")
@@ -1600,6 +1600,46 @@ def c02_seeds(seed, tier):
             if fetched:
                 R.fail("output-already-held-the-source-but-chunks-were-fetched", req + " fetched=%r" % fetched[:4])
             R.stat("output_equals_source_rows")
+        # ... and on REAL block devices (loop devices, when this machine lets us attach one): nothing about a device
+        # is simulated here - its size as `metadata()` reports it (0), as seeking reports it, O_TRUNC ignored
+        for state in ("device-holds-the-source", "device-holds-an-older-version"):
+            bs = 512
+            blocks = [rng.randbytes(bs) for _ in range(8)]
+            src = b"".join(blocks[:6])
+            arch, apath, cfg_tok, hl = make_archive(W, rng, src, cfg=(["--fixed-size", str(bs)], "F:%d" % bs))
+            content = src + bytes(4 * bs) if state == "device-holds-the-source" else b"".join([blocks[6], blocks[0], blocks[1], blocks[7], blocks[4], blocks[5]]) + bytes(4 * bs)
+            backing = W.write(content, ".blk")
+            dev = None
+            try:
+                pl = subprocess.run(["losetup", "-f", "--show", backing], stdout=subprocess.PIPE, stderr=subprocess.PIPE, timeout=20)
+                dev = pl.stdout.decode().strip() if pl.returncode == 0 else None
+            except (OSError, subprocess.TimeoutExpired):
+                dev = None
+            if not dev or not os.path.exists(dev):
+                R.stat("real_block_device_rows_skipped_no_loop_device")
+                break
+            try:
+                log = W.fresh(".strace")
+                cls, rc, so, se = clone_cli(W, apath, dev, seed_output=True, strace_log=log)
+                a = pyfmt.parse_archive(arch)
+                fetched = split_at(merge_ranges([r for r in _strace_reads(log, apath) if r[0] >= a["header_size"]]),
+                                   set(a["chunk_data_offset"] + cd["archive_offset"] for cd in a["dictionary"]["chunk_descriptors"]))
+                with open(dev, "rb") as fdev:
+                    got = fdev.read(len(src))
+                req = "cli-clone --seed-output onto a real block device (loop), %s, fixed blocks of %d" % (state, bs)
+                R.stat("real_block_device_rows")
+                if cls != "ok":
+                    R.fail("in-place-clone-%s" % cls, req + " :: " + se.decode(errors="replace")[-160:].replace("\n", "|"))
+                elif got != src:
+                    R.fail("seeds-changed-the-output", req)
+                # chunker-free oracle: a block of the source that the device holds at any block-aligned position is not fetched
+                held = set(content[o:o + bs] for o in range(0, len(content) - bs + 1, bs))
+                want = [(a["chunk_data_offset"] + cd["archive_offset"], cd["archive_size"]) for cd, blk in
+                        zip(a["dictionary"]["chunk_descriptors"], [src[o:o + bs] for o in range(0, len(src), bs)]) if blk not in held]
+                if cls == "ok" and sorted(fetched) != sorted(want):
+                    R.fail("fetched-ranges-differ-from-the-missing-chunks", req + " fetched=%r expected=%r" % (fetched[:6], want[:6]))
+            finally:
+                subprocess.run(["losetup", "-d", dev], stdout=subprocess.PIPE, stderr=subprocess.PIPE)
     finally:
         W.close()
     return R.as_dict()
